@@ -6,7 +6,10 @@ exact conflict rule; chains; idempotence.  The table of copied kinds and the ski
 src/cffi/cparser.py on every run (coq/C34/Gen.v).  Part B, the three delegating lookups of out-of-line modules
 (_fetch_external_struct_or_union, ffi_fetch_int_constant, lib_build_and_cache_attr) are "first answer in
 depth-first preorder of the include graph" = found iff a transitive include declares the name; an included
-struct resolves to the defining module's own object.
+struct resolves to the defining module's own object.  Their guards, cap, recursion increment, passed-down tuple,
+miss action and flag masks are REGENERATED from src/c/ffi_obj.c and src/c/lib_obj.c (tools/props/c34_regen.py) as
+rows of Gen.v that the model's dfsG reads; the _CFFI_F_EXTERNAL rule of Recompiler._struct_ctx is regenerated too and
+`closed` is proved for every world built by FFI.include steps (coq/C34/Proofs3.v).
 
 Tie: regeneration of Gen.v + correspondence: (1) every FFI.include() step executed on real in-line FFIs is replayed
 through the model from the observed pre-state (declaration dict with object identities, constants, included set)
@@ -382,6 +385,18 @@ def generate(ctx):
         qs += [dict(q="const", m=m, name="DEEPK"), dict(q="const", m=m, name="NOSUCH"),
                dict(q="lib", m=m, name="DEEPK"), dict(q="struct", m=m, name="deep_s", union=False)]
     cases.append(dict(kind="ool", mods=mods, queries=qs, uses=[], deep=True))
+    # chains through a module that declares only types (its _cffi_globals table is empty): a <- b <- c and a <- d;
+    # every constant of a must be visible through b, c (integer_const and lib) and d
+    tk = [dict(includes=[], cdef="#define TKA 5\nenum { TKAN = 3 };\nstruct tk_s { int q; };",
+               types=[("struct", "struct tk_s")], consts=[("TKA", 5), ("TKAN", 3)], structs=[("tk_s", False)]),
+          dict(includes=[0], cdef="typedef int tk_t;\nstruct tk_b { struct tk_s s; };",
+               types=[("typedef", "tk_t"), ("struct", "struct tk_b")], consts=[], structs=[("tk_b", False)]),
+          dict(includes=[1], cdef="#define TKB 6", types=[], consts=[("TKB", 6)], structs=[]),
+          dict(includes=[0], cdef="#define TKD 8", types=[], consts=[("TKD", 8)], structs=[]),
+          dict(includes=[1, 3], cdef="", types=[], consts=[], structs=[])]
+    for m in tk:
+        m.update(funcs=[], uses=[])
+    cases.append(dict(kind="ool", mods=tk, queries=ool_queries(rng, tk), uses=[]))
     # API mode: one small fan-in case (two sibling includes) in every run; every shape in thorough
     cases.append(gen_api_case(rng, "q0", "fanin"))
     if ctx.thorough:
@@ -570,7 +585,8 @@ def run(ctx):
         "an error, or any constant lookup; distinct by content.")
     ctx.assumptions += [
         "hand-written model C34/Model.v; Part A tied by regenerating the copied-kind table (Gen.v) and by replaying every "
-        "observed FFI.include step; Part B tied by differential lookup on generated modules",
+        "observed FFI.include step; Part B tied by the regenerated search rows (Gen.v, read by dfsG / struct_ownG) and "
+        "by differential lookup on generated modules",
         "object identity is observed with `is` / id() on live objects; cdef itself is not modelled (its effect on the "
         "declaration dict is observed)",
         "the model world of ABI modules is decoded from the generated .py files (struct flags, globals, _includes); for "
@@ -580,28 +596,47 @@ def run(ctx):
 
 MANIFEST = dict(
     technique="Coq proof (invariants over association-list environments with object identities; DFS = first hit in "
-              "preorder, by induction on the include depth; recursion cap and fuel modelled as distinct outcomes) + "
-              "regenerated kind table + differential correspondence on in-line FFIs, out-of-line ABI modules and "
-              "compiled API modules (chain, sibling/fan-in, diamond shapes)",
-    text="Proof, in-line: a successful Parser.include binds every typedef/struct/union/enum name of the included FFI to "
-         "the same object and every integer constant to the same value, changes nothing else, fails exactly on a "
-         "conflicting binding, composes along chains and is idempotent (kind table regenerated from cparser.py). "
-         "Generated modules, ANY world (cyclic or dangling includes, any depth): the model's fuel is never exhausted "
-         "(the code's recursion cap 100 fires first; OutOfFuel and RuntimeError are distinct outcomes), every answer "
-         "other than 'not found' is some module's own answer or the cap's RuntimeError, whatever 'struct x' resolves to "
-         "is a real non-external definition of that kind. Acyclic include graphs of depth <= 100: "
-         "_fetch_external_struct_or_union / ffi_fetch_int_constant / lib_build_and_cache_attr equal 'first answer in "
-         "depth-first preorder of the transitive includes'; an integer constant is found iff a transitive include "
-         "declares it. UNDER TWO HYPOTHESES about the recompiler that are not derived from a model of it (every including "
-         "module re-declares included structs as external entries: `closed`; a single module defines the struct) an "
-         "included struct resolves in every including module to the defining module's own object. Tie: every observed "
-         "include step replayed through the model; lookups on generated ABI modules (world decoded from the generated "
-         "files, 104-deep chain for the cap); compiled API modules in chain, fan-in (two and three sibling includes), "
-         "diamond and mixed shapes — one fan-in case in every quick run — with functions, double constants, #defines and "
-         "global variables (address, read, write) of every included module reached through the including lib.",
-    note="Trusted: Coq kernel; hand model (Part A tied by regeneration of the kind table + step replay; Part B by "
-         "differential lookups); the decoder of generated module files; CPython object identity; for API worlds the "
-         "harness's rendering of the recompiler's rule (included struct -> external entry). Theorems closed under the "
-         "global context. Not modelled: typedef resolution in out-of-line modules; enum ctypes are NOT shared by "
-         "out-of-line modules (open finding ool-enum-not-shared).",
+              "preorder, by induction on the include depth; recursion cap and fuel modelled as distinct outcomes; "
+              "invariant over histories of FFI.include steps for the bridge to generated modules) + Gen.v regenerated "
+              "from cparser.py (kind table), ffi_obj.c / lib_obj.c (one row per delegating search, read by the model's "
+              "dfsG) and recompiler.py (_CFFI_F_EXTERNAL rule) + differential correspondence on in-line FFIs, "
+              "out-of-line ABI modules and compiled API modules (chain, sibling/fan-in, diamond shapes)",
+    text="Proof, in-line (C34_include_shares_objects, _conflict_rule, _chain, _idempotent): a successful Parser.include "
+         "binds every typedef/struct/union/enum name of the included FFI to the same object and every integer constant "
+         "to the same value, changes nothing else, fails exactly on a conflicting binding, composes along chains and is "
+         "idempotent (kind table regenerated from cparser.py). Generated modules: the three delegating lookups "
+         "(_fetch_external_struct_or_union, ffi_fetch_int_constant, lib_build_and_cache_attr) are REGENERATED as rows "
+         "of Gen.v by a fail-closed token-template translator (tools/props/c34_regen.py): guards in front of the loop "
+         "in source order (NULL tuple, `recursion > 100`, any other early `return NULL` as text), the increment of the "
+         "recursive call, the tuple/object passed down, the statement on `sindex < 0`, the two flag masks, the integer "
+         "ops; C34_gen_rows_as_modelled (reflexivity against every regenerated Gen.v) and "
+         "C34_regenerated_searches_are_the_model prove that the row-reading searches resolve_structG / integer_constG / "
+         "lib_getattrG, which the correspondence evaluates, equal the model's searches on every world. ANY world "
+         "(cyclic or dangling includes, any depth): the model's fuel is never exhausted (the cap 100 fires first), "
+         "every answer other than 'not found' is some module's own answer or the cap's RuntimeError, whatever "
+         "'struct x' resolves to is a real non-external definition of that kind. Acyclic include graphs of depth <= "
+         "100: the searches equal 'first answer in depth-first preorder of the transitive includes'; an integer "
+         "constant is found iff a transitive include declares it. Bridge (C34_recompiled_world_closed): for every list "
+         "of FFIs built by successful FFI.include steps (an FFI no longer changes once included elsewhere; cdef not "
+         "modelled: initial declarations arbitrary) the emitted modules (module_of: one entry per struct/union "
+         "declaration, flag by the regenerated _struct_ctx rule) satisfy `closed`, the first of the two hypotheses of "
+         "the sharing theorem C34_included_struct_is_the_same_object; C34_include_marks_external: a freshly copied "
+         "declaration is emitted EXTERNAL. The second hypothesis (a single module defines the struct) is still assumed; "
+         "C34_closed_nonvacuous exhibits a built world where every hypothesis holds. C34_find_struct_is_search_sorted / "
+         "C34_lookup_is_search_sorted: on strictly sorted tables the model's linear scans return what C25's binary "
+         "search (search_in_struct_unions / search_in_globals) returns. Tie: every observed include step replayed "
+         "through the model; lookups on generated ABI modules (world decoded from the generated files, 104-deep chain "
+         "for the cap, chains through a module without globals); compiled API modules in chain, fan-in (two and three "
+         "sibling includes), diamond and mixed shapes — one fan-in case in every quick run — with functions, double "
+         "constants, #defines and global variables (address, read, write) of every included module reached through "
+         "the including lib.",
+    note="Trusted: Coq kernel; hand model (Part A tied by regeneration of the kind table + step replay; Part B by the "
+         "regenerated rows + differential lookups); the token templates of c34_regen.py (what is outside the holes is "
+         "compared verbatim, so an edit there is a broken obligation, not a silent pass); the decoder of generated "
+         "module files; CPython object identity; for API worlds the harness's rendering of the recompiler's rule. "
+         "module_of is a hand rendering of Recompiler._struct_ctx of which only the EXTERNAL test is regenerated; its "
+         "globals table is empty (the bridge theorem is about struct/union entries only). Correspondence only: struct "
+         "layouts come from the included module, typedefs of out-of-line modules, globals read/written through the "
+         "including lib, 'same ctype' for typedef/pointer/primitive types. Theorems closed under the global context. "
+         "Enum ctypes are NOT shared by out-of-line modules (open finding ool-enum-not-shared).",
     design_ref="DESIGN.md §4 C34")
